@@ -522,6 +522,12 @@ def unaryUploads (cfg : Cfg) (rq : UReq) : Nat :=
 
 /-- raw bytes a unary call uploads -/
 def unaryCharged (cfg : Cfg) (rq : UReq) : Nat :=
-  if unaryUploads cfg rq > 0 then (rq.env.ticks.headD {}).raw else 0
+  let te := rq.env.ticks.headD {}
+  match rq.outcome with
+  | .value _ =>
+    let predicted := predictExt cfg 1 te.buf
+    if cfg.extOn && decide (cfg.maxExt > 0 ∧ predicted > cfg.maxExt) then 0
+    else if predicted > 0 then te.raw else 0
+  | _ => 0
 
 end Vgi.HttpStream
